@@ -14,6 +14,8 @@ def decode(sel):
         return np.array(v, dtype=int)
     if t == "mask":
         return np.array(v, dtype=bool)
+    if t == "lmask":
+        return [bool(x) for x in v]          # a boolean mask given as a plain Python list
     if t == "names":
         return list(v)
     raise ValueError(t)
@@ -40,7 +42,7 @@ def meaning(sel, n, names=None):
             if len(v) == 0:
                 return None
             return False, [int(i) for i in np.arange(n)[np.array(v, dtype=int)]]
-        if t == "mask":
+        if t in ("mask", "lmask"):
             if len(v) != n:
                 return None
             return False, [int(i) for i in np.arange(n)[np.array(v, dtype=bool)]]
@@ -126,7 +128,8 @@ def box_selectors(rng, nb):
            {"t": "list", "v": [0, 0]}, {"t": "list", "v": [-1, 0]},
            {"t": "ndarray", "v": list(range(0, nb, 2))},
            {"t": "mask", "v": [i % 2 == 1 for i in range(nb)]},
-           {"t": "mask", "v": [True] * nb}, {"t": "mask", "v": [False] * nb}]
+           {"t": "mask", "v": [True] * nb}, {"t": "mask", "v": [False] * nb},
+           {"t": "lmask", "v": [i % 2 == 0 for i in range(nb)]}, {"t": "lmask", "v": [i % 3 != 1 for i in range(nb)]}]
     if nb > 2:
         p = list(range(nb)); rng.shuffle(p)
         out.append({"t": "list", "v": p[: max(1, nb // 2)]})
